@@ -12,6 +12,9 @@ path and the same options.  Only projected findings are compared (rows sorted, p
   get_health_score  health score, grade, the seven category scores, the counters       <-> analyze (all analyses), summary section
   analyze_code      all of the above rows + health score, per selected analyses        <-> analyze --select ...
 
+Histories (sequences of calls on ONE server process across projects with different configurations; the answer to a call must not depend on
+the calls made before it) are in harness/c20hist.py, started from run() below and sharing its cache of command line runs.
+
 The "summary" and "detailed" output modes of the tools (issue lists cut by a threshold) are compared with the CLI rows cut by the same
 threshold, and with the lines `pyscn check` prints for the same threshold.
 """
